@@ -756,28 +756,36 @@ Definition WS_S := Eval cbv in lit "ws".
 Definition WSS_S := Eval cbv in lit "wss".
 Definition UNIX_S := Eval cbv in lit "unix".
 
-Record url_parts := { u_secure : bool; u_host : str; u_port : Z; u_resource : str }.
+Record url_parts := { u_secure : bool; u_host : str; u_port : Z; u_resource : str; u_path : str }.
 
-(* None = ValueError; unix domain sockets (hostname "unix") are outside the model *)
-Definition parse_url (up : urlparse_full) : option url_parts :=
+(* parse_url(url) over parsed = urllib.parse.urlparse(url) and urllib.parse.unquote (oracles).
+   ppath = parsed.path or "/" is the RAW (percent-escaped) path; path = unquote(ppath) is only returned for
+   information (factory.path). The resource sent on the wire is composed from the RAW pieces:
+     resource = ppath + "?" + parsed.query   if the query is non-empty, else ppath
+   urlparse's fourth component (params: the ";..." split off the LAST path segment, because util.py adds ws/wss to
+   uses_params) is never used, so parsed.path lacks it: the harness compares the request line with the URL text and
+   reports client.startHandshake/request-target/path-params-dropped.
+   None = ValueError; unix domain sockets (hostname "unix") are outside the model *)
+Definition parse_url (unquote : str -> str) (up : urlparse_full) : option url_parts :=
   match up with
   | UpRaises => None
-  | UpOk scheme hostname port path query fragment netloc =>
+  | UpOk scheme hostname port rawpath query fragment netloc =>
       if negb (mem_str scheme [WS_S; WSS_S]) then None else
       match hostname with
       | None => None
       | Some [] => None
       | Some host =>
           if negb (is_nil fragment) then None else
-          let ppath := match path with [] => [47] | _ => path end in
+          let ppath := match rawpath with [] => [47] | _ => rawpath end in
+          let path := unquote ppath in
           let resource := match query with [] => ppath | _ => ppath ++ [63] ++ query end in
           if str_eqb host UNIX_S then None else
           match port with
           | PortRaises => None
           | PortNone => Some {| u_secure := str_eqb scheme WSS_S; u_host := host;
-                                u_port := if str_eqb scheme WS_S then 80%Z else 443%Z; u_resource := resource |}
+                                u_port := if str_eqb scheme WS_S then 80%Z else 443%Z; u_resource := resource; u_path := path |}
           | PortSome p => if ((p <? 1) || (65535 <? p))%Z then None
-                          else Some {| u_secure := str_eqb scheme WSS_S; u_host := host; u_port := p; u_resource := resource |}
+                          else Some {| u_secure := str_eqb scheme WSS_S; u_host := host; u_port := p; u_resource := resource; u_path := path |}
           end
       end
   end.
